@@ -1118,7 +1118,9 @@ def run_metamorphic(simA, ops, transform=None, prop='C10', what='declared-implic
             simB.last_model_before = simB.model.clone()
             simA.now = simB.now = max(simA.now, simB.now)
             mid = None
-            if op.get('mid') and type(simA) is Sim:
+            if op.get('mid') and type(simA) is Sim and prop == 'C10':
+                # (not for C11: an input that a dyndep file adds is looked at only once that file is loaded, so the two variants
+                # may rightly see different versions of a file edited meanwhile)
                 # a source (often a discovered header) is edited while the build runs, the same edit at the same wait in both
                 # variants; this build is not compared (which command saw which version is a matter of timing), the run
                 # that follows at once is: "changing it re-runs the command" holds for a change made at any moment
@@ -1129,10 +1131,32 @@ def run_metamorphic(simA, ops, transform=None, prop='C10', what='declared-implic
                     s_ = cand[op['mid'][1] % len(cand)]
                     mid = [dict(at=op['mid'][0], path=s_, content=simA.new_content(s_, 5))]
             if mid:
-                rA = simA.invoke(targets, j=op['j'], k=op['k'], sched=op['sched'], mid_edits=mid, oracles=False)
-                rB = simB.invoke(targets, j=op['j'], k=op['k'], sched=op['sched'], mid_edits=mid, oracles=False)
+                # (each variant's own oracles stay on: a listed finding that shows in this build - a dirty statement that
+                # ignores its discovered inputs runs beside their producer - is attributed here, as in every other build)
+                fbA, fbB = copy.deepcopy(simA.files), copy.deepcopy(simB.files)
+                mbA, mbB = simA.last_model_before, simB.last_model_before
+                rA = simA.invoke(targets, j=op['j'], k=op['k'], sched=op['sched'], mid_edits=mid)
+                rB = simB.invoke(targets, j=op['j'], k=op['k'], sched=op['sched'], mid_edits=mid)
                 if rA is None or rB is None or rA['status'] != 0 or rB['status'] != 0:
                     return
+                # the run set of a build with an edit in it is not judged by the variant's own oracles, so a listed finding
+                # that shows only there (a statement pruned after a restat no-op without its discovered inputs) is looked
+                # for here: does a counterfactual model predict exactly what that variant ran?
+                for sm, r_, fb_, mb_ in ((simA, rA, fbA, mbA), (simB, rB, fbB, mbB)):
+                    st_ = sorted(ev['edge'] for ev in r_['trace'] if ev['ev'] == 'start')
+                    pr_ = mb_.plan(sm.g, fb_, targets)
+                    if pr_['error'] is None and sorted(pr_['run']) != st_:
+                        keep = sm.last_model_before
+                        sm.last_model_before = mb_
+                        kn_ = sm.attribute(targets, st_, fb_, [])
+                        sm.last_model_before = keep
+                        if kn_:
+                            sm.add(prop, 'build with an edit while it ran: run set as a listed finding predicts', dict(started=st_), known=kn_)
+                kn = [f for f in simA.findings[nA:] + simB.findings[nB:] if f['known']]
+                if kn:
+                    for f in kn:
+                        simA.add(prop, 'differs from the %s variant (attributed, build with an edit while it ran)' % what, dict(via=f['kind']), known=f['known'])
+                    break
                 if not (any(ev['ev'] == 'mid_edit' for ev in rA['trace']) and any(ev['ev'] == 'mid_edit' for ev in rB['trace'])):
                     # the edit did not happen in one of the variants (fewer waits than the chosen index): make it now in both
                     for sm in (simA, simB):
